@@ -8,6 +8,7 @@
 // beyond the prefix whose cost fits the bound.
 #pragma once
 #include <errno.h>
+#include <fcntl.h>
 #include <signal.h>
 #include <sys/mman.h>
 #include <sys/time.h>
@@ -32,7 +33,8 @@ struct Exec {
   int status = 0;  // 1 finished, 2 deadlock, 3 divergence, 0 crashed/killed
   int sig = 0, exitCode = 0;
   bool timedOut = false, overflow = false;
-  uint64_t points = 0, tasks = 0, spawns = 0, steals = 0;
+  uint64_t points = 0, tasks = 0, spawns = 0, steals = 0, races = 0;
+  std::string stderrText;
   std::string outcome, note;
   std::string scheduleStr() const {
     std::string s;
@@ -51,10 +53,11 @@ struct Config {
   uint64_t maxExec = 0;   // 0 = no cap
   int rootStride = 1, rootOffset = 0;  // partition of the root's alternatives across cases
   bool useTbb = true;
+  bool captureStderr = false;  // keep the child's stderr (sanitizer reports) in Exec::stderrText
 };
 
 struct Stats {
-  uint64_t executions = 0, choicePoints = 0, maxTrace = 0, maxPoints = 0, withSteals = 0, tasks = 0;
+  uint64_t executions = 0, choicePoints = 0, maxTrace = 0, maxPoints = 0, withSteals = 0, tasks = 0, withRaces = 0;
   bool capped = false;
   std::map<std::string, uint64_t> outcomes;  // distinct outcomes -> count
 };
@@ -80,8 +83,20 @@ class Explorer {
     sh_->note[0] = 0;
     fflush(stdout);
     fflush(stderr);
+    std::string errPath;
+    if (cfg.captureStderr) {
+      const char* d = getenv("VERIF_RUN_DIR");
+      errPath = std::string(d ? d : ".") + "/exec." + std::to_string((long)getpid()) + ".err";
+    }
     pid_t p = fork();
     if (p == 0) {
+      if (!errPath.empty()) {
+        int fd = open(errPath.c_str(), O_WRONLY | O_CREAT | O_TRUNC, 0644);
+        if (fd >= 0) {
+          dup2(fd, 2);
+          close(fd);
+        }
+      }
       // watchdog: CPU seconds (a frozen or overloaded machine is not a hang), wall only as a distant backstop
       {
         struct itimerval it;
@@ -107,6 +122,17 @@ class Explorer {
     while (waitpid(p, &st, 0) < 0 && errno == EINTR) {
     }
     if (WIFSIGNALED(st) && (WTERMSIG(st) == SIGALRM || WTERMSIG(st) == SIGPROF)) e.timedOut = true;
+    if (!errPath.empty()) {
+      FILE* f = fopen(errPath.c_str(), "r");
+      if (f) {
+        char buf[6000];
+        size_t n = fread(buf, 1, sizeof buf - 1, f);
+        buf[n] = 0;
+        e.stderrText = buf;
+        fclose(f);
+      }
+      unlink(errPath.c_str());
+    }
     e.status = sh_->status;
     if (WIFSIGNALED(st)) e.sig = WTERMSIG(st);
     if (WIFEXITED(st)) e.exitCode = WEXITSTATUS(st);
@@ -115,6 +141,7 @@ class Explorer {
     e.tasks = sh_->user[0];
     e.spawns = sh_->user[1];
     e.steals = sh_->user[2];
+    e.races = sh_->user[3];
     int n = sh_->trace_len;
     e.trace.assign(sh_->trace, sh_->trace + n);
     e.choices.resize(n);
@@ -146,11 +173,21 @@ class Explorer {
       }
       Exec e = run(f.prefix, cfg, body);
       S.executions++;
+      if (getenv("VERIF_EXPLORE_VERBOSE") && (S.executions == 1 || S.executions % 200 == 0))
+        fprintf(stderr, "[explore] exec %llu: prefix %zu trace %zu points %llu status %d outcome %.60s stack %zu\n",
+                (unsigned long long)S.executions, f.prefix.size(), e.trace.size(), (unsigned long long)e.points, e.status,
+                e.outcome.c_str(), stack.size());
+      if (getenv("VERIF_EXPLORE_VERBOSE") && S.executions == 1) {
+        std::map<std::string, int> h;
+        for (auto& r : e.trace) h[r.tag ? r.tag : "?"]++;
+        for (auto& kv : h) fprintf(stderr, "[explore]   %d choice points at '%s'\n", kv.second, kv.first.c_str());
+      }
       S.choicePoints += e.trace.size();
       S.maxTrace = std::max<uint64_t>(S.maxTrace, e.trace.size());
       S.maxPoints = std::max<uint64_t>(S.maxPoints, e.points);
       S.outcomes[e.outcome]++;
       if (e.steals) S.withSteals++;
+      if (e.races) S.withRaces++;
       S.tasks += e.tasks;
       if (e.overflow) S.capped = true;
       if (!onExec(e)) break;
